@@ -28,13 +28,13 @@ def save_meta(i, m):
     with open(meta_path(i), 'w') as fh: json.dump(m, fh, indent=1)
 
 
-def cmd_import(wt, prop):
+def cmd_import(wt, prop, tag='s'):
     sd = os.path.join(wt, '_seed')
     notes = open(os.path.join(sd, 'notes.md')).read() if os.path.exists(os.path.join(sd, 'notes.md')) else ''
     n = 0
     for diff in sorted(glob.glob(os.path.join(sd, 'change*.diff'))):
         k = re.search(r'change(\d+)', diff).group(1)
-        i = '%s-s%s' % (prop, k)
+        i = '%s-%s%s' % (prop, tag, k)
         d = os.path.join(SEEDED, i)
         os.makedirs(d, exist_ok=True)
         shutil.copy(diff, os.path.join(d, 'patch.diff'))
@@ -143,7 +143,7 @@ def cmd_table():
 
 if __name__ == '__main__':
     a = sys.argv[1:]
-    if a[0] == 'import': cmd_import(a[1], a[2])
+    if a[0] == 'import': cmd_import(a[1], a[2], a[3] if len(a) > 3 else 's')
     elif a[0] == 'verify': cmd_verify([x for x in a[1:] if not x.startswith('--')], tests='--no-tests' not in a)
     elif a[0] == 'detect': cmd_detect([x for x in a[1:] if not x.startswith('--')], all_props='--all-props' in a)
     elif a[0] == 'table': cmd_table()
